@@ -65,31 +65,40 @@ PROPS = {
     "C01": dict(
         level="proof",
         streams=[("V1", 3000), ("V2", 2000)], configs_quick=Q4, configs_thorough=T4,
-        theorems={**reg("Voi.Props.C01"), **LAT_FOR_C01},
+        theorems=reg("Voi.Props.C01", "Voi.Props.C01Concrete", "Voi.Proofs.ConcreteIface", "Voi.Proofs.GroupOrder", "Voi.Props.LatticeFuel"),
         explanation="Go VerifyWithOptions / VerifyExpandedWithOptions / crypto/ed25519.Verify vs the declarative Lean predicate Spec.Ed25519.verify",
     ),
-    "C02": dict(level="proof", streams=[("K1", 1500)], configs_quick=Q4, configs_thorough=T4, theorems=reg("Voi.Props.C02")),
+    "C02": dict(level="proof", streams=[("K1", 1500)], configs_quick=Q4, configs_thorough=T4, theorems=reg("Voi.Props.C02", "Voi.Props.C01Concrete")),
     "C03": dict(level="proof", streams=[("G1", 1500), ("G2", 800)], configs_quick=T4, configs_thorough=T4, thorough_mult=4,
                 theorems=reg("Voi.Props.C03", "Voi.Props.C03.Basic", "Voi.Props.C03.Buckets", "Voi.Proofs.SpecBridge", "Voi.Proofs.EdwardsCurve", "Voi.Proofs.EdwardsExt", "Voi.Proofs.Ed25519Group", "Voi.Proofs.Primes")),
     "C04": dict(level="proof", gens=["go2ir"], streams=[("T0", 6000), ("F2", 5000)], configs_quick=["default", "purego", "force32bit"], configs_thorough=T4,
                 theorems={**IR_CORE, **L0_FIELD, **reg("Voi.Proofs.SqrtRatio")}),
     "C05": dict(level="proof", gens=["go2ir"], streams=[("S1", 4000), ("T0", 4000)], configs_quick=["default", "force32bit"], configs_thorough=T4,
-                theorems={**IR_CORE, **L0_SCALAR}),
+                theorems={**IR_CORE, **L0_SCALAR, **reg("Voi.Props.L0.Pred_ScMinimalVartime", "Voi.Props.ScMinimal")}),
     "C07": dict(level="proof", streams=[("X1", 2500)], configs_quick=Q4, configs_thorough=T4, theorems={"Voi.Props.C07": C07_THMS}),
     "C09": dict(level="proof", streams=[("B1", 1500), ("C1", 1500)], configs_quick=Q4, configs_thorough=T4, thorough_mult=4,
                 theorems={"Voi.Props.BatchInv": BATCH_THMS, "Voi.Props.CacheInv": CACHE_THMS}),
-    "C10": dict(level="proof", streams=[("D1", 3000)], configs_quick=Q4, configs_thorough=T4, theorems=reg("Voi.Props.C10", "Voi.Proofs.SqrtRatio")),
+    "C10": dict(level="proof", streams=[("D1", 3000)], configs_quick=Q4, configs_thorough=T4, gens=["go2ir"], theorems=reg("Voi.Props.C10", "Voi.Proofs.SqrtRatio", "Voi.Props.L0.Pred_IsCanonicalVartime")),
     "C11": dict(level="proof", streams=[("T1", 3000)], configs_quick=Q4, configs_thorough=T4, theorems=reg("Voi.Props.C11")),
-    "C12": dict(level="translation_validation", streams=[("Q1", 2500)], configs_quick=Q4, configs_thorough=T4, theorems={}),
+    "C12": dict(level="proof", streams=[("Q1", 2500)], configs_quick=Q4, configs_thorough=T4, theorems=reg("Voi.Props.C12")),
     "C13": dict(level="proof", streams=[("M1", 4000), ("S0", 2000)], configs_quick=Q4, configs_thorough=T4,
                 theorems={"Voi.Props.StrobeInv": STROBE_THMS}),
-    "C14": dict(level="translation_validation", streams=[("H1", 2500), ("H2", 2000)], configs_quick=Q4, configs_thorough=T4, theorems={}),
-    "C15": dict(level="translation_validation", streams=[("E1", 2000)], configs_quick=Q4, configs_thorough=T4, theorems={}),
+    "C14": dict(level="proof", gens=["consts"], streams=[("H1", 2500), ("H2", 2000), ("H3", 2000)], configs_quick=Q4, configs_thorough=T4,
+                theorems=reg("Voi.Props.C14", "Voi.Props.C14.Expand", "Voi.Props.C14.HashWF", "Voi.Props.C14.U2F", "Voi.Props.C14.Elligator", "Voi.Props.C14.Consts")),
+    "C15": dict(level="proof", streams=[("E1", 2000), ("E2", 1500)], configs_quick=Q4, configs_thorough=T4, theorems=reg("Voi.Props.C15")),
     "C16": dict(level="proof", streams=[("L1", 3000)], configs_quick=Q4, configs_thorough=T4,
-                theorems={"Voi.Props.LatticeInv": LAT_INV, "Voi.Props.LatticeRefine": LAT_REF}),
-    "C18": dict(level="proof", streams=[("C2", 3000), ("C1", 800)], configs_quick=Q4, configs_thorough=T4,
+                theorems={"Voi.Props.LatticeInv": LAT_INV, "Voi.Props.LatticeRefine": LAT_REF, **reg("Voi.Props.LatticeFuel")}),
+    "C18": dict(level="proof", streams=[("C2", 3000), ("C1", 800),
+                                        # the stateless API workload executed from 16 goroutines sharing all package-level state;
+                                        # replies must equal the sequential model; once more under the Go race detector
+                                        ("K1", 1200, {"parallel": 16, "configs": ["default"]}), ("V1", 1500, {"parallel": 16, "configs": ["default"]}),
+                                        ("X1", 800, {"parallel": 16, "configs": ["default"]}), ("G1", 400, {"parallel": 16, "configs": ["default"]}),
+                                        ("E1", 300, {"parallel": 16, "configs": ["default"]}), ("H2", 400, {"parallel": 16, "configs": ["default"]}),
+                                        ("K1", 300, {"parallel": 16, "race": True, "configs": ["default"]}), ("V1", 300, {"parallel": 16, "race": True, "configs": ["default"]}),
+                                        ("X1", 200, {"parallel": 16, "race": True, "configs": ["default"]})],
+                configs_quick=Q4, configs_thorough=T4,
                 theorems={"Voi.Props.LRUInv": LRU_THMS, "Voi.Props.LinearizeSound": LIN_THMS}),
-    "C17": dict(level="proof", streams=[("R1", 4000)], configs_quick=["default", "force32bit"], configs_thorough=T4, theorems={"Voi.Props.C17": C17_THMS}),
+    "C17": dict(level="proof", streams=[("R1", 8000)], configs_quick=["default", "force32bit"], configs_thorough=T4, theorems={"Voi.Props.C17": C17_THMS}),
 }
 PROPS["C19"] = dict(level="proof", streams=[("P1", 26000)], configs_quick=Q4, configs_thorough=T4, thorough_mult=1,
                     theorems={"Voi.Props.TotalInv": TOTAL_THMS})
